@@ -288,11 +288,47 @@ func main() {
 		invalid int
 	}
 	var cfgs []cfg
-	for k := K; k >= 1; k-- {
+	// reorgFailShape: the invalid node has a descendant two levels below it and
+	// the tree has a branch that competes with it (a node that is neither its
+	// descendant nor its ancestor): the smallest shapes in which the invalid block
+	// can fail on the reorganisation path while a header-only descendant chain of
+	// length 2 exists.  The quick tier runs these K+1-block configurations on top
+	// of the complete K-block family.
+	reorgFailShape := func(p []int, inv int) bool {
+		if inv <= 0 {
+			return false
+		}
+		under := func(x, a int) bool { // a is an ancestor of x or x itself
+			for ; x >= 0; x = p[x] {
+				if x == a {
+					return true
+				}
+			}
+			return false
+		}
+		deep, rival := false, false
+		for x := 1; x < len(p); x++ {
+			if under(x, inv) && x != inv && p[x] != inv {
+				deep = true
+			}
+			if !under(x, inv) && !under(inv, x) {
+				rival = true
+			}
+		}
+		return deep && rival
+	}
+	kTop := K
+	if r.Tier == "quick" {
+		kTop = K + 1
+	}
+	for k := kTop; k >= 1; k-- {
 		for _, p := range allShapes(k + 1) {
 			seen := map[string]bool{}
 			for inv := -1; inv <= k; inv++ {
 				if inv == 0 {
+					continue
+				}
+				if k > K && !reorgFailShape(p, inv) {
 					continue
 				}
 				c := markedCanon(p, inv)
@@ -385,7 +421,7 @@ func main() {
 		"a_queries":         "per shape: Ancestor/RelativeAncestor(Ctx) for h,d in {MinInt32,-2..H+2,MaxInt32-1,MaxInt32}; IsAncestor all pairs (+nil); SetTip for every ordered tip pair (nil included); per tip (and nil tip): Height/Tip/Genesis/Contains/Next/FindFork/BlockLocator for every node (+nil), NodeByHeight all heights; MainChainHasBlock, BlockHeightByHash, BlockHashByHeight, BlockLocatorFromHash (unknown->tip), LatestBlockLocator, HeaderByHash, HeightRange over the full square of heights, IntervalBlockHashes (every end +unknown, intervals 1,2,3,maxH+1), HeightToHashRange (every start, every end +unknown, max 0,1,2,n), ChainTips; LocateBlocks/locateHeaders/LocateHeaders for locators {empty,[unknown],[x],[x,y] all ordered pairs,[unknown,x],[x,unknown],proper locator of x} x stop {every node, zero, unknown} x max {0,1,2,2000}; per (tip, header tip): best-header view battery, BestHeader, BestChainHeaderForkHeight, HeaderHashByHeight, HeaderHeightByHash, IsValidHeader, LatestBlockLocatorByHeader",
 		"a_status_pattern":  "node i: i%3==2 not validated, i%4==3 validate-failed, else valid",
 		"deep_fork_heights": fmt.Sprintf("0..%d", F), "deep_branch_lengths": fmt.Sprintf("0..%d", L),
-		"b_max_blocks": K, "b_configurations": len(cfgs),
+		"b_max_blocks": K, "b_extra_family": "quick tier: plus the K+1-block configurations in which the invalid block has a descendant two levels below it and a competing branch exists", "b_configurations": len(cfgs),
 		"b_events":  "H_i = ProcessBlockHeader(header_i, BFNone, false), B_i = ProcessBlock(block_i, BFNone); H_i enabled once parent's header or block was delivered and neither H_i nor B_i was; B_i enabled once parent's block was delivered",
 		"b_invalid": "one node whose coinbase overpays by 1 satoshi (found at connect time only), every node up to tree symmetry, or none",
 	})
